@@ -262,9 +262,12 @@ def run_property(prop: str, tier: str, seed: int, repo: str) -> dict[str, Any]:
 
 def replay(data: dict[str, Any], repo: str, path: str) -> int:
     """./check replay <file> for a deductive violation: re-run the native replay of the model."""
-    if not data.get("model") or not data.get("contract"):
-        print(f"replay file {path} carries no input model (obligation: {data.get('obligation')}); solver output:")
-        print(data.get("solver_output", ""))
+    if not data.get("model") or not data.get("contract") or not data.get("has_input"):
+        # the refuted obligation is about a state the inputs do not determine (a loop invariant, opaque objects):
+        # there is nothing to run; the file names the obligation and carries the verifier's output
+        print(f"replay file {path} carries no failing input; refuted obligation: {data.get('obligation')}")
+        print(str(data.get("detail", ""))[:1500])
+        print(str(data.get("solver_output", ""))[:3000])
         print(f"VIOLATION property={data['property']} replay={path} no-failing-input-found")
         return 1
     rep = native_replay(repo, data["contract"], data["model"])
